@@ -1058,6 +1058,35 @@ func c08Merge(c *Ctx, t *tables.Tree) {
 		}
 		return 0, false
 	}
+	// main and notebook entries are prepared alike: a loader that fills the
+	// lower-case search fields of the entries it reads (the legacy pipeline
+	// search and the recovery scorer read only those) is matched by one that
+	// does so for the other file
+	{
+		fills := func(g *ssa.Function) bool {
+			found := false
+			for _, h := range reachClosure(c, []*ssa.Function{g}) {
+				ssau.ForEachInstr(h, false, func(in ssa.Instruction) {
+					if st, ok := in.(*ssa.Store); ok {
+						if fa, ok := st.Addr.(*ssa.FieldAddr); ok && ssau.NamedOf(fa.X.Type()) == cmdType && strings.HasSuffix(ssau.FieldName(fa), "Lower") {
+							found = true
+						}
+					}
+				})
+			}
+			return found
+		}
+		byPar := map[int]*ssa.Function{}
+		for _, x := range pls {
+			byPar[x.par] = x.l.call.Common().StaticCallee()
+		}
+		if byPar[0] != nil && byPar[1] != nil && byPar[0] != byPar[1] {
+			f0, f1 := fills(byPar[0]), fills(byPar[1])
+			r.Check(f0 == f1, "O-5", fk+"#both-files-prepared-alike", c.P.Pos(fn.Pos()), "main and notebook entries go through the same preparation", fmt.Sprintf("the main file is loaded by %s (fills the lower-case search fields: %v) and the notebook by %s (fills them: %v): saved entries reach the merged database without the fields that the pipeline search and the recovery scorer read, so a saved command is not found by them", byPar[0].Name(), f0, byPar[1].Name(), f1))
+		} else {
+			r.OK("O-5", fk+"#both-files-prepared-alike", c.P.Pos(fn.Pos()), "both files are loaded by the same routine")
+		}
+	}
 	// the merged literal
 	var merged *ssa.Alloc
 	var mergedVal ssa.Value
